@@ -164,6 +164,22 @@ func NonTrivial(key string, sample func() any) {
 	}
 }
 
+// Current records the case that is about to run in <VERIF_REPLAY_OUT>.current, so that a
+// process-killing failure (out of memory, stack overflow, fatal error) still leaves a replayable
+// case behind. Only used by checks whose oracle includes "does not crash".
+func Current(c any) {
+	path := os.Getenv("VERIF_REPLAY_OUT")
+	if path == "" {
+		return
+	}
+	cb, err := json.Marshal(c)
+	if err != nil {
+		return
+	}
+	rb, _ := json.Marshal(Replay{Property: S.Property, Message: "process died while running this case", Case: cb})
+	_ = os.WriteFile(path+".current", rb, 0o644)
+}
+
 // Replay is the on-disk form of a failing (or saved) case.
 type Replay struct {
 	Property string          `json:"property"`
